@@ -67,6 +67,8 @@ var ruleTable = []RuleDef{
 	{"R-WRITE-PATH", (*Model).ruleWRITEPATH, "an exported mutating entry point reports success only on paths that went through the document writer"},
 	{"R-FILTER-RESULT", (*Model).ruleFILTERRESULT, "a parse-edit-reencode helper never returns its unmodified input on a path that ran the editing callback"},
 	{"R-XATTR-ROUNDTRIP", (*Model).ruleXATTRROUNDTRIP, "stored xattrs that are always re-encoded are decoded whenever they exist (no extra condition on the decode)"},
+	{"R-LASTID", (*Model).ruleLASTID, "LastInsertId is taken only from a plain INSERT (no ON CONFLICT / OR IGNORE), so it is the id of the row just inserted"},
+	{"R-VIEW-STALE", (*Model).ruleVIEWSTALE, "the synchronous index update before a view query is skipped only for the documented stale values (deny-list, not allow-list)"},
 	{"R-TIMER", (*Model).ruleTIMER, "a new expiry timer is created only when the manager holds none"},
 }
 
